@@ -42,6 +42,7 @@ type c02Op struct {
 	P1, P2 string // pathnames; "{R}" stands for the forest root
 	Flags  uint64 // open flags / at-flags
 	Hi     uint64 // garbage for the upper half of int-typed registers (flags)
+	Res    uint64 // openat2: open_how.resolve (RESOLVE_* bits change what the kernel resolves to)
 	Place  string // plain | pend | cross : where the pathname string lives in the tracee
 }
 
@@ -332,6 +333,9 @@ func c02GenCase(rt *rapid.T) c02Case {
 			}
 		default:
 			op := c02Op{Kind: "call", Sys: rapid.SampledFrom(c02Calls).Draw(rt, "sys")}
+			if k >= 18 {
+				op.Sys = "openat2" // the only call whose resolution rules are themselves an argument
+			}
 			genD := func(label string) (c02Dirfd, string) {
 				if !c02HasDirfd(op.Sys) {
 					return c02Dirfd{Enc: "cwd-100"}, cwd
@@ -425,6 +429,20 @@ func c02GenCase(rt *rapid.T) c02Case {
 				if op.Sys != "openat2" && rapid.IntRange(0, 3).Draw(rt, "hi") == 0 {
 					op.Hi = uint64(rapid.Uint32().Draw(rt, "hibits")) << 32
 				}
+				if op.Sys == "openat2" && rapid.IntRange(0, 1).Draw(rt, "res") == 0 {
+					op.Res = rapid.SampledFrom([]uint64{unix.RESOLVE_IN_ROOT, unix.RESOLVE_IN_ROOT, unix.RESOLVE_BENEATH, unix.RESOLVE_NO_SYMLINKS, unix.RESOLVE_NO_MAGICLINKS, unix.RESOLVE_NO_XDEV, unix.RESOLVE_IN_ROOT | unix.RESOLVE_NO_MAGICLINKS}).Draw(rt, "resolve")
+					if op.Res&unix.RESOLVE_IN_ROOT != 0 && !slotIsFile[op.D1.Slot] {
+						// names that only mean something because dirfd is the root of the lookup
+						switch rapid.IntRange(0, 3).Draw(rt, "inroot") {
+						case 0:
+							op.P1 = "/" + genPath("p1r", base1, false)
+						case 1:
+							op.P1 = strings.Repeat("../", rapid.IntRange(1, 4).Draw(rt, "updots")) + genPath("p1r", base1, false)
+						case 2:
+							op.P1 = genPath("p1r", base1, false) + "/" + strings.Repeat("../", rapid.IntRange(1, 6).Draw(rt, "updots")) + genPath("p1s", base1, false)
+						}
+					}
+				}
 			case "newfstatat", "statx", "faccessat2", "fchmodat2":
 				if rapid.IntRange(0, 2).Draw(rt, "nofollow") == 0 {
 					op.Flags = 0x100 // AT_SYMLINK_NOFOLLOW
@@ -516,6 +534,31 @@ func kresolve(base, path string, follow bool) string {
 		return cand
 	}
 	return ""
+}
+
+// kresolve2 resolves (base, path) like openat2 with the given RESOLVE_* bits does; "" unless the whole path resolves.
+func kresolve2(base, path string, follow bool, resolve uint64) string {
+	dfd := unix.AT_FDCWD
+	if base != "" {
+		d, err := unix.Open(base, unix.O_PATH|unix.O_DIRECTORY|unix.O_CLOEXEC, 0)
+		if err != nil {
+			return ""
+		}
+		defer unix.Close(d)
+		dfd = d
+	} else if !strings.HasPrefix(path, "/") {
+		return ""
+	}
+	flags := uint64(unix.O_PATH | unix.O_CLOEXEC)
+	if !follow {
+		flags |= unix.O_NOFOLLOW
+	}
+	fd, err := unix.Openat2(dfd, path, &unix.OpenHow{Flags: flags, Resolve: resolve})
+	if err != nil {
+		return ""
+	}
+	defer unix.Close(fd)
+	return fdPath(fd)
 }
 
 type c02Expect struct {
@@ -710,7 +753,20 @@ func c02Run(c c02Case, root string, rec *vh.Recorder) error {
 			}
 		}
 		follow := c02Follow(op, second)
-		got := kresolve(base, path, follow)
+		kres := kresolve
+		if op.Sys == "openat2" && op.Res != 0 {
+			// the kernel's own resolution under the same RESOLVE_* bits; only complete resolutions are asserted
+			e.Classes = append(e.Classes, fmt.Sprintf("openat2-resolve=%#x", op.Res))
+			if alias {
+				return e
+			}
+			kres = func(base, path string, follow bool) string { return kresolve2(base, path, follow, op.Res) }
+			if g0, g1 := kresolve(base, path, follow), kres(base, path, follow); g1 != "" && g0 != g1 {
+				e.NT = true
+				e.Classes = append(e.Classes, "resolve-bits-change-the-object")
+			}
+		}
+		got := kres(base, path, follow)
 		if got != "" {
 			e.Accept = append(e.Accept, got)
 			if !follow {
@@ -718,7 +774,7 @@ func c02Run(c c02Case, root string, rec *vh.Recorder) error {
 				if err := unix.Lstat(got, &st); err == nil && st.Mode&unix.S_IFMT == unix.S_IFLNK {
 					// a no-follow call on a final symlink: the statement is ambiguous (DESIGN.md C02 (ii)); accept the
 					// link's own path and its followed target; when the target does not resolve nothing is asserted
-					if g2 := kresolve(base, path, true); g2 != "" {
+					if g2 := kres(base, path, true); g2 != "" {
 						e.Accept = append(e.Accept, g2)
 						e.Classes = append(e.Classes, "nofollow-final-symlink(both accepted)")
 					} else {
@@ -797,7 +853,7 @@ func c02Run(c c02Case, root string, rec *vh.Recorder) error {
 			case "openat":
 				s.Sys(nr, c02DirfdArg(op.D1), p1, fl, 0o644)
 			case "openat2":
-				s.Sys(nr, c02DirfdArg(op.D1), p1, fmt.Sprintf("!how=%d,%d,0", op.Flags, c02HowMode(op.Flags)), 24)
+				s.Sys(nr, c02DirfdArg(op.D1), p1, fmt.Sprintf("!how=%d,%d,%d", op.Flags, c02HowMode(op.Flags), op.Res), 24)
 			case "stat", "lstat":
 				s.Sys(nr, p1, "!buf")
 			case "newfstatat":
